@@ -98,6 +98,10 @@ pub mod ax_utf8 {
     #[verifier::external_body]
     pub broadcast proof fn axiom_utf8_incomplete(s: Seq<u8>)
         ensures (!#[trigger] utf8_ok(s) && utf8_valid_up_to(s) == 0 && utf8_error_len(s) is None) ==> s.len() < 4 { }
+    // the encoding of the first character of a valid text is a prefix of that text
+    #[verifier::external_body]
+    pub broadcast proof fn axiom_utf8_first_is_prefix(s: Seq<u8>)
+        ensures (utf8_ok(s) && s.len() > 0) ==> utf8_of(#[trigger] utf8_first(s)).is_prefix_of(s) { }
     #[verifier::external_body]
     pub broadcast proof fn axiom_utf8_empty_ok() ensures #[trigger] utf8_ok(Seq::<u8>::empty()) { }
     #[verifier::external_body]
